@@ -328,7 +328,7 @@ func (r *Run) Violation(caseID, kind string, detail any) {
 	}
 	r.violationIDs[caseID+"|"+kind] = true
 	r.violations++
-	if strings.Contains(kind, "hang") || strings.Contains(kind, "never-finishes") || strings.Contains(kind, "does-not-return") {
+	if strings.Contains(kind, "hang") || strings.Contains(kind, "never-finishes") || strings.Contains(kind, "does-not-return") || strings.Contains(kind, "never-answered") || strings.Contains(kind, "stops-answering") {
 		r.hangs++
 	}
 	n := r.violations
